@@ -19,6 +19,7 @@ import (
 	"context"
 	"fmt"
 	"math/rand/v2"
+	"runtime/debug"
 	"sort"
 	"time"
 
@@ -74,6 +75,12 @@ func runConcurrentUse() {
 	evid.Parallel(n, 0, func(i int) {
 		rng := rand.New(rand.NewPCG(uint64(run.Seed)^0xc02c0c, uint64(i)))
 		backend := []string{lab.BackendBadger, lab.BackendPathBadger, lab.BackendNop}[i%3]
+		defer func() {
+			if p := recover(); p != nil {
+				run.Violation("c02/concurrent-use/panic/"+backend, fmt.Sprintf("a tree used by two goroutines around a commit panicked: %v", p),
+					concWitness{Seed: run.Seed, Tier: run.Tier, Case: i, Backend: backend, Detail: "panic", Observed: fmt.Sprint(p) + "\n" + string(debug.Stack())})
+			}
+		}()
 		concurrentCase(i, rng, backend)
 	})
 }
